@@ -14,7 +14,7 @@ EXPECT = ["C13_trnnls_kernel_is_unit_RC", "C13_trnnls_model_is_kernel", "C13_trn
           "C13_rc_real_part_decreasing", "C13_lm_peak_formulas", "C13_rc_partial_fraction", "C13_mrq_peaks_at_tau0", "C13_mrq_tau0_rc"]
 
 
-def ladder(rng, n, kind, R0=True, scale=1.0):
+def ladder(rng, n, kind, R0=True, scale=1.0, mixed_start_rq=True):
     """1..4 elements, time constants >= 1.5 decades inside the window 1e5..1e-2 Hz and >= 1.5 decades apart, resistances within a decade"""
     lt = rng.uniform(-4.3, -4.0)
     s = ("R{R=%r}" % (scale * rng.uniform(5, 50))) if R0 else ""
@@ -24,7 +24,8 @@ def ladder(rng, n, kind, R0=True, scale=1.0):
         tau = 10 ** lt
         Rs.append(R)
         taus.append(tau)
-        if kind == "RC":
+        k_ = kind if kind != "mixed" else ("RQ" if (len(Rs) % 2 == 1) == bool(mixed_start_rq) else "RC")
+        if k_ == "RC":
             s += "(R{R=%r}C{C=%r})" % (R, tau / R)
         else:
             s += "(R{R=%r}Q{Y=%r,n=0.85})" % (R, tau ** 0.85 / R)
@@ -65,10 +66,11 @@ def run(rep, tier, seed, tr_errors):
 
     reps = 1 if tier == "quick" else 6
     for n in (1, 2, 3, 4):
-        for kind in ("RC", "RQ"):
-            for _ in range(reps):
+        for kind in ("RC", "RQ") + (("mixed",) if n >= 2 else ()):
+            for rep_i in range(reps):
                 scale = 10 ** rng.uniform(-2, 2)
-                cdc, Rs, taus = ladder(rng, n, kind, True, scale)
+                # mixed ladders alternate (RQ) and (RC) elements, starting with either kind
+                cdc, Rs, taus = ladder(rng, n, kind, True, scale, mixed_start_rq=((n + rep_i) % 2 == 0))
                 ppd = rng.choice([5, 10, 20])
                 f = np.logspace(5, -2, 7 * ppd + 1)
                 Z = parse_cdc(cdc).get_impedances(f)
@@ -124,7 +126,7 @@ def run(rep, tier, seed, tr_errors):
                 except Exception as e:  # noqa
                     bad.append((dict(cdc=cdc), "scaling run raised %s: %s" % (type(e).__name__, str(e)[:100])))
                 # m(RQ)fit
-                if tier != "quick" or n <= 2:
+                if tier != "quick" or n <= 2 or kind == "mixed":
                     desc = dict(cdc=cdc, points_per_decade=ppd, method="mrq-fit")
                     try:
                         r = drt(f, Z, method="mrq-fit", circuit=parse_cdc(cdc), num_procs=1)
@@ -134,11 +136,11 @@ def run(rep, tier, seed, tr_errors):
                         a = area(tau, g) / sum(Rs)
                         if abs(a - 1) > 0.02:
                             bad.append((desc, "area under the m(RQ)fit distribution is %.4f x the sum of the resistances" % a))
-                        for t in taus:
-                            j = int(np.argmin(abs(np.log(tau / t))))
-                            loc = g[max(0, j - 3): j + 4]
-                            if not (g[j] >= 0.5 * loc.max()):
-                                bad.append((desc, "the m(RQ)fit distribution has no maximum at tau = %.3g" % t))
+                        pk_t, pk_g = r.get_peaks()
+                        for t, R_ in zip(taus, Rs):
+                            dev = min(abs(math.log10(pt / t)) for pt in pk_t) if len(pk_t) else 9.0
+                            if dev > 0.15:
+                                bad.append((desc, "the m(RQ)fit distribution has no peak within 0.15 decades of tau = %.3g (nearest %.2f decades away; %d peaks)" % (t, dev, len(pk_t))))
                     except Exception as e:  # noqa
                         bad.append((desc, "raised %s: %s" % (type(e).__name__, str(e)[:120])))
         # Loewner method: ladder without series resistance
